@@ -6,7 +6,15 @@ Two ties:
                 field sets, storage) that never looks at the model.
   B  `prog`     program level: generated Laythe class programs (vharness runbatch) vs the executable
                 Lean Spec Model/ClassLang.lean (drv_classes prog) run on an S-expression rendering of
-                the same generated AST.
+                the same generated AST; the compiler's decisions on the same programs (property access form,
+                the instruction that pushes the superclass) vs Model/ClassCompile.lean (drv_classes compile).
+                About every third program declares an `Object` of its own (module-level class / variable /
+                function, parameter, local variable, local class) with classes declared under it, inside
+                functions, lambdas and module-level blocks: a class without parent inherits from the built-in
+                Object, `class A : Object` from what the variable denotes (repaired finding D26).
+
+corpus/C03/*.json: engine `classes` (op list), `prog` (AST, judged by the Spec), `lay` (a program file next to the
+json with the status / stdout / last stderr line it must give — the witnesses of repaired findings); run first.
 """
 import json
 import os
@@ -23,6 +31,11 @@ DRV = os.path.join(common.LEAN, ".lake", "build", "bin", "drv_classes")
 
 def vh():
     return common.harness_path(bin="vh_classes")
+
+
+def corpus_dir():
+    """corpus/C03; with C03_NO_CORPUS=1 in the environment nothing (to test that the generated streams alone notice a change)"""
+    return os.path.join(common.VERIF, "corpus", "C03" if not os.environ.get("C03_NO_CORPUS") else "C03.none")
 
 
 def par_lines(cmd, lines, chunk=400, timeout=1800):
@@ -389,9 +402,9 @@ def api_disagree(ops):
 def stream_api(ctx, nseq, label="classes"):
     rng = random.Random(ctx.seed * 7919 + 3)
     seqs = []
-    corpus = os.path.join(common.VERIF, "corpus", "C03")
+    corpus = corpus_dir()
     if os.path.isdir(corpus):
-        for f in sorted(os.listdir(corpus)):
+        for f in sorted(x for x in os.listdir(corpus) if x.endswith(".json")):
             r = json.load(open(os.path.join(corpus, f)))
             if r.get("engine") == "classes":
                 seqs.append((r["ops"], False))
@@ -525,6 +538,7 @@ class GClass:
     def __init__(self, name, parent):
         self.name = name
         self.parent = parent        # GClass or None
+        self.parent_as = None       # the name the source uses for the parent (a variable bound to that class), if not its own
         self.explicit_object = False
         self.init = None            # (params, stmts)
         self.methods = []           # (name, params, stmts)
@@ -571,12 +585,114 @@ class GClass:
         return len(o.init[0]) if o else 0
 
 
-def gen_program(rng, size=1.0):
+def explicit_child_block(rng, name, bound, classes, meta, local_shadow=False):
+    """statements declaring `class <name> : Object {..}` where the program's `Object` is the class `bound` (or
+    not a class: None) and using it; meant for the body of a `try` (the declaration raises if Object is not a class)"""
+    t = GClass(name, bound)
+    t.parent_as = "Object"
+    if bound is None:
+        meta["superclass_not_a_class"] += 1
+        return [class_item_explicit(t, "Object"), ("print", ("str", "declared"))]
+    meta["explicit_parent_own_object"] += 1
+    meta["local_classes"] += 1
+    gen_class_body(rng, t, [k for k in classes if k.name != "Object"], meta)
+    v = "t%d" % fresh_uid(meta)
+    out = [class_item(t), ("let", v, call(var(name), *[num(rng.randint(1, 9)) for _ in range(t.init_arity())]))]
+    for f in t.fields():
+        if f in NUMF:
+            out.append(("print", get(var(v), f)))
+    for m in sorted(M_ARITY):
+        if callable_on(t, m) == "method" and not t.fragile() and rng.random() < 0.6:
+            out.append(("print", call(get(var(v), m), *[num(rng.randint(1, 9)) for _ in range(M_ARITY[m])])))
+    return out
+
+
+def class_item_explicit(c, parent_name):
+    return ("class", c.name, parent_name, None, [], [])
+
+
+def gen_local_unit(rng, k, classes, meta):
+    """A function `mk<k>` (or a module-level block) in which the name `Object` is a local — a parameter, a `let`, a
+    local class — and classes are declared under it: `L<k>` without parent (the built-in Object, whatever the local
+    is) and, sometimes, `M<k> : Object` (the local).  Returns (items, objs): the instance the function returns is
+    used by the main statements like every other object."""
+    meta["object_local"] += 1
+    mods = [c for c in classes if c.name != "Object"]
+    body, params, args = [], [], []
+    shape = rng.random()
+    bound = None                      # the GClass the local `Object` denotes, if it is a class
+    if shape < 0.25:
+        params = ["Object"]
+        if rng.random() < 0.7:
+            bound = rng.choice(mods)
+            args = [var(bound.name)]
+        else:
+            args = [num(rng.randint(1, 9))]
+    elif shape < 0.6:
+        if rng.random() < 0.7:
+            bound = rng.choice(mods)
+            body.append(("let", "Object", var(bound.name)))
+        else:
+            body.append(("let", "Object", rng.choice([num(5), ("nil",), ("lam", [], [("ret", num(3))])])))
+    else:
+        bound = GClass("Object", rng.choice(mods) if rng.random() < 0.4 else None)
+        gen_class_body(rng, bound, mods, meta)
+        meta["local_classes"] += 1
+        meta["implicit_parent_under_own_object"] += bound.parent is None
+        body.append(class_item(bound))
+    lc = GClass("L%d" % k, None)
+    gen_class_body(rng, lc, mods, meta)
+    meta["local_classes"] += 1
+    meta["implicit_parent_under_own_object"] += 1
+    body.append(class_item(lc))
+    o = "lo%d" % k
+    body.append(("let", o, call(var(lc.name), *[num(rng.randint(1, 9)) for _ in range(lc.init_arity())])))
+    for f in lc.fields():
+        if f in NUMF:
+            body.append(("print", get(var(o), f)))
+    # what the local Object has, the class without parent does not have
+    if bound is not None:
+        extra = [x for x in bound.fields() + [m for m in sorted(M_ARITY) if bound.find_method(m)] if not callable_on(lc, x)]
+        for x in extra[:2]:
+            body.append(wrap_try(("print", get(var(o), x)), meta))
+    if rng.random() < 0.6:
+        body.append(("try", explicit_child_block(rng, "M%d" % k, bound, classes, meta), []))
+        meta["try_blocks"] += 1
+    if rng.random() < 0.35:
+        # declared inside a lambda: the enclosing function's local is seen through a capture
+        inner = GClass("N%d" % k, None)
+        gen_class_body(rng, inner, mods, meta)
+        meta["local_classes"] += 1
+        meta["implicit_parent_under_own_object"] += 1
+        io = "no%d" % k
+        lam_body = [class_item(inner), ("let", io, call(var(inner.name), *[num(rng.randint(1, 9)) for _ in range(inner.init_arity())]))]
+        lam_body += [("print", get(var(io), f)) for f in inner.fields() if f in NUMF]
+        lam_body.append(("ret", num(0)))
+        body.append(("let", "w", ("lam", [], lam_body)))
+        body.append(("expr", call(var("w"))))
+    if rng.random() < 0.25:
+        # a module-level block instead of a function: the locals are those of the script
+        if params:
+            body.insert(0, ("let", "Object", args[0]))
+        return [("try", body, [])], []
+    body.append(("ret", var(o)))
+    r = "r%d" % k
+    return [("fn", "mk%d" % k, params, body), ("let", r, call(var("mk%d" % k), *args))], [(r, lc)]
+
+
+def gen_program(rng, size=1.0, shadow=None):
     """Returns (items, meta).  Items are the AST; meta has distribution counters."""
     meta = {"classes": 0, "max_depth": 0, "overrides": 0, "super_calls": 0, "super_init": 0, "shadow_fields": 0,
             "statics": 0, "bound_passed": 0, "shared_sites": 0, "try_blocks": 0, "explicit_object": 0,
-            "fused_sites": 0, "unfused_sites": 0, "lambda_self": 0, "foreign_field_reads": 0}
+            "fused_sites": 0, "unfused_sites": 0, "lambda_self": 0, "foreign_field_reads": 0,
+            "object_module_class": 0, "object_module_value": 0, "object_local": 0, "local_classes": 0,
+            "implicit_parent_under_own_object": 0, "explicit_parent_own_object": 0, "superclass_not_a_class": 0}
     ncls = rng.randint(2, 7)
+    # the program's own `Object` (the implicit superclass stays the built-in one, an explicit `: Object` is the program's):
+    # a module-level class of that name / a module variable or function of that name / locals of that name (below)
+    r = rng.random() if shadow is None else {"class": 0.0, "value": 0.2, None: 1.0}[shadow.get("module")]
+    mod_shadow = "class" if r < 0.14 else ("value" if r < 0.26 else None)
+    own_object_at = rng.randrange(ncls) if mod_shadow == "class" else -1
     classes = []
     for k in range(ncls):
         cands = [c for c in classes if c.depth() < 6]
@@ -584,8 +700,10 @@ def gen_program(rng, size=1.0):
         if cands and rng.random() < 0.75:
             cands.sort(key=lambda c: -c.depth())
             parent = cands[0] if rng.random() < 0.45 else rng.choice(cands)
-        c = GClass("C%d" % k, parent)
-        if parent is None and rng.random() < 0.2:
+            if own_object_at >= 0 and own_object_at < k and rng.random() < 0.4:
+                parent = classes[own_object_at]
+        c = GClass("Object" if k == own_object_at else "C%d" % k, parent)
+        if parent is None and mod_shadow is None and rng.random() < 0.2:
             c.explicit_object = True
             meta["explicit_object"] += 1
         classes.append(c)
@@ -593,6 +711,32 @@ def gen_program(rng, size=1.0):
     meta["classes"] = ncls
     meta["max_depth"] = max(c.depth() for c in classes)
     items = [class_item(c) for c in classes]
+    if mod_shadow == "class":
+        meta["object_module_class"] += 1
+        meta["implicit_parent_under_own_object"] += sum(1 for c in classes if c.parent is None)
+        meta["explicit_parent_own_object"] += sum(1 for c in classes if c.parent is classes[own_object_at])
+    if mod_shadow == "value":
+        # `let Object = <class | number | nil | lambda>;` or `fn Object() {..}` somewhere among the class declarations
+        meta["object_module_value"] += 1
+        at = rng.randint(0, ncls)
+        bound = None
+        kind = rng.random()
+        if kind < 0.45 and at > 0:
+            bound = rng.choice(classes[:at])
+            items.insert(at, ("let", "Object", var(bound.name)))
+        elif kind < 0.6:
+            items.insert(at, ("let", "Object", num(rng.randint(1, 9))))
+        elif kind < 0.7:
+            items.insert(at, ("let", "Object", ("nil",)))
+        elif kind < 0.85:
+            items.insert(at, ("let", "Object", ("lam", [], [("ret", num(3))])))
+        else:
+            items.insert(at, ("fn", "Object", [], [("ret", num(7))]))
+        meta["implicit_parent_under_own_object"] += sum(1 for c in classes if c.parent is None)
+        # an explicit `: Object` after that is the program's value: a class, or "Superclass must be a class."
+        if rng.random() < 0.8:
+            items.append(("try", explicit_child_block(rng, "T0", bound, classes, meta), []))
+            meta["try_blocks"] += 1
     # shared call sites and helpers
     items.append(("fn", "apply0", ["f"], [("ret", call(var("f")))]))
     items.append(("fn", "apply1", ["f", "a"], [("ret", call(var("f"), var("a")))]))
@@ -604,6 +748,13 @@ def gen_program(rng, size=1.0):
         items.append(("fn", "read_" + f, ["o"], [("ret", get(var("o"), f))]))
     # instances
     objs = []
+    nlocal = 0
+    if shadow.get("local") if shadow is not None else rng.random() < 0.3:
+        nlocal = rng.choice([1, 1, 2])
+    for k in range(nlocal):
+        its, lobjs = gen_local_unit(rng, k, classes, meta)
+        items += its
+        objs += lobjs
     for c in classes:
         for rep in range(1 if rng.random() < 0.7 else 2):
             name = "o%d" % len(objs)
@@ -635,7 +786,7 @@ def gen_program(rng, size=1.0):
 
 
 def class_item(c):
-    parent = c.parent.name if c.parent else ("Object" if c.explicit_object else None)
+    parent = (c.parent_as or c.parent.name) if c.parent else ("Object" if c.explicit_object else None)
     init = ("init", c.init[0], c.init[1]) if c.init else None
     return ("class", c.name, parent, init, list(c.methods), list(c.statics))
 
@@ -953,6 +1104,8 @@ def lay_stmt(s, ind):
         body = "\n".join(lay_stmt(x, ind + 1) for x in s[1])
         hand = "\n".join([p + "  " + CATCH] + [lay_stmt(x, ind + 1) for x in s[2]])
         return "%stry {\n%s\n%s} catch e: Error {\n%s\n%s}" % (p, body, p, hand, p)
+    if t == "class":
+        return lay_class(s, ind)
     raise ValueError(s)
 
 
@@ -961,15 +1114,21 @@ def lay_fun(name, params, body, ind, prefix=""):
     return "%s%s%s(%s) {\n%s\n%s}" % (p, prefix, name, ", ".join(params), "\n".join(lay_stmt(s, ind + 1) for s in body), p)
 
 
+def lay_class(it, ind):
+    """a class declaration, at module level (an item) or inside a block (a statement)"""
+    _, name, parent, init, methods, statics = it
+    p = "  " * ind
+    parts = []
+    if init:
+        parts.append(lay_fun("init", init[1], init[2], ind + 1))
+    parts += [lay_fun(n, ps, b, ind + 1) for (n, ps, b) in methods]
+    parts += [lay_fun(n, ps, b, ind + 1, "static ") for (n, ps, b) in statics]
+    return "%sclass %s%s {\n%s\n%s}" % (p, name, (" : " + parent) if parent else "", "\n".join(parts), p)
+
+
 def lay_item(it):
     if it[0] == "class":
-        _, name, parent, init, methods, statics = it
-        parts = []
-        if init:
-            parts.append(lay_fun("init", init[1], init[2], 1))
-        parts += [lay_fun(n, ps, b, 1) for (n, ps, b) in methods]
-        parts += [lay_fun(n, ps, b, 1, "static ") for (n, ps, b) in statics]
-        return "class %s%s {\n%s\n}" % (name, (" : " + parent) if parent else "", "\n".join(parts))
+        return lay_class(it, 0)
     if it[0] == "fn":
         return lay_fun(it[1], it[2], it[3], 0, "fn ")
     return lay_stmt(it, 0)
@@ -1018,6 +1177,8 @@ def sx_stmt(s):
         return "(setf %s %s %s)" % (sx_expr(s[1]), s[2], sx_expr(s[3]))
     if t == "try":
         return "(try (%s) (%s))" % (" ".join(sx_stmt(x) for x in s[1]), " ".join(sx_stmt(x) for x in s[2]))
+    if t == "class":
+        return sx_class(s)
     raise ValueError(s)
 
 
@@ -1025,13 +1186,17 @@ def sx_fun(tag, name, params, body):
     return "(%s %s (%s) %s)" % (tag, name, " ".join(params), " ".join(sx_stmt(s) for s in body))
 
 
+def sx_class(it):
+    _, name, parent, init, methods, statics = it
+    i = "(init (%s) %s)" % (" ".join(init[1]), " ".join(sx_stmt(s) for s in init[2])) if init else "(noinit)"
+    return "(class %s %s %s (methods %s) (statics %s))" % (
+        name, parent or "-", i, " ".join(sx_fun("m", n, ps, b) for (n, ps, b) in methods),
+        " ".join(sx_fun("m", n, ps, b) for (n, ps, b) in statics))
+
+
 def sx_item(it):
     if it[0] == "class":
-        _, name, parent, init, methods, statics = it
-        i = "(init (%s) %s)" % (" ".join(init[1]), " ".join(sx_stmt(s) for s in init[2])) if init else "(noinit)"
-        return "(class %s %s %s (methods %s) (statics %s))" % (
-            name, parent or "-", i, " ".join(sx_fun("m", n, ps, b) for (n, ps, b) in methods),
-            " ".join(sx_fun("m", n, ps, b) for (n, ps, b) in statics))
+        return sx_class(it)
     if it[0] == "fn":
         return sx_fun("fn", it[1], it[2], it[3])
     return sx_stmt(it)
@@ -1163,7 +1328,43 @@ def shrink_prog(items, extra="", fails=None):
                 cur = cand
                 changed = True
             i -= 1
-        # inside try blocks: unwrap; inside classes: drop methods/statics/init statements
+        # inside module-level blocks and function bodies: drop statements, thin out the classes declared there
+        for i, it in enumerate(list(cur)):
+            if it[0] in ("try", "fn"):
+                bi = 1 if it[0] == "try" else 3
+                body = list(it[bi])
+
+                def rebuilt(b, it=it, bi=bi, i=i):
+                    return cur[:i] + [it[:bi] + (b,) + it[bi + 1:]] + cur[i + 1:]
+                j = len(body) - 1
+                while j >= 0:
+                    cand_b = body[:j] + body[j + 1:]
+                    if fails(rebuilt(cand_b)):
+                        body, changed = cand_b, True
+                        cur = rebuilt(body)
+                    j -= 1
+                for j, st in enumerate(list(body)):
+                    if st[0] == "class":
+                        _, name, parent, init, methods, statics = st
+                        for k in range(len(methods) - 1, -1, -1):
+                            cst = ("class", name, parent, init, methods[:k] + methods[k + 1:], statics)
+                            if fails(rebuilt(body[:j] + [cst] + body[j + 1:])):
+                                methods, changed = cst[4], True
+                                body = body[:j] + [cst] + body[j + 1:]
+                                cur = rebuilt(body)
+                        for k in range(len(statics) - 1, -1, -1):
+                            cst = ("class", name, parent, init, methods, statics[:k] + statics[k + 1:])
+                            if fails(rebuilt(body[:j] + [cst] + body[j + 1:])):
+                                statics, changed = cst[5], True
+                                body = body[:j] + [cst] + body[j + 1:]
+                                cur = rebuilt(body)
+                        if init and init[2]:
+                            cst = ("class", name, parent, ("init", init[1], []), methods, statics)
+                            if fails(rebuilt(body[:j] + [cst] + body[j + 1:])):
+                                init, changed = cst[3], True
+                                body = body[:j] + [cst] + body[j + 1:]
+                                cur = rebuilt(body)
+        # inside classes: drop methods/statics/init statements
         for i, it in enumerate(list(cur)):
             if it[0] == "class":
                 _, name, parent, init, methods, statics = it
@@ -1233,6 +1434,10 @@ EVENTS = {"GetProp": "G", "SetProp": "S", "GetPropByName": "g", "SetPropByName":
           "Class": "C", "Inherit": "I", "Method": "M", "Field": "F", "StaticMethod": "T"}
 
 
+# the instruction that pushes the superclass: O = read from the global module, m = module symbol, l = local / captured
+SUPER_LOAD = {"LoadGlobal": "O", "GetModSym": "m", "GetLocal": "l", "GetBox": "l", "GetCapture": "l"}
+
+
 def compile_impl(files):
     """Compile-only log of the real compiler (hook verif_peephole, `vharness dump -`): per file the list of
     (function name, [property events of its pre-optimiser stream])."""
@@ -1253,10 +1458,17 @@ def compile_impl(files):
             m = re.match(r'FUN name="([^"]*)"', parts[0])
             pre = next((p[4:] for p in parts[1:] if p.startswith("PRE ")), "")
             evs = []
-            for ins in pre.split(";"):
-                w = ins.split("@")[0].split()
+            ops = [ins.split("@")[0].split() for ins in pre.split(";")]
+            for k, w in enumerate(ops):
                 if w and w[0] in EVENTS:
-                    evs.append(EVENTS[w[0]] + (w[1] if w[0] in ("GetProp", "SetProp") else ""))
+                    ev = EVENTS[w[0]] + (w[1] if w[0] in ("GetProp", "SetProp") else "")
+                    if w[0] == "Inherit":
+                        # .. <superclass> [FillBox: `super` is captured] <the class> Inherit
+                        j = k - 2
+                        if j >= 0 and ops[j] and ops[j][0] == "FillBox":
+                            j -= 1
+                        ev += SUPER_LOAD.get(ops[j][0] if j >= 0 and ops[j] else "", "?")
+                    evs.append(ev)
             res[cur].append((m.group(1) if m else "?", evs))
     return res
 
@@ -1313,9 +1525,9 @@ def shrink_items(items, fails):
 def stream_prog(ctx, nprog, label="prog", seed_mul=1000003, report=True, extra_cycle=("",)):
     rng = random.Random(ctx.seed * seed_mul + 17)
     progs, metas = [], []
-    corpus = os.path.join(common.VERIF, "corpus", "C03")
+    corpus = corpus_dir()
     if report and os.path.isdir(corpus):
-        for f in sorted(os.listdir(corpus)):
+        for f in sorted(x for x in os.listdir(corpus) if x.endswith(".json")):
             r = json.load(open(os.path.join(corpus, f)))
             if r.get("engine") == "prog":
                 progs.append(from_jsonable(r["ast"]))
@@ -1367,7 +1579,9 @@ def stream_prog(ctx, nprog, label="prog", seed_mul=1000003, report=True, extra_c
         if v == "fail":
             fails.append((i, msg))
     for k in ("classes", "overrides", "super_calls", "super_init", "shadow_fields", "statics", "bound_passed", "shared_sites",
-              "try_blocks", "explicit_object", "fused_sites", "unfused_sites", "lambda_self", "foreign_field_reads"):
+              "try_blocks", "explicit_object", "fused_sites", "unfused_sites", "lambda_self", "foreign_field_reads",
+              "object_module_class", "object_module_value", "object_local", "local_classes",
+              "implicit_parent_under_own_object", "explicit_parent_own_object", "superclass_not_a_class"):
         stats[k] = sum(m.get(k, 0) for m in metas)
     stats["depth_histogram"] = {}
     for m in metas:
@@ -1390,6 +1604,7 @@ def stream_prog(ctx, nprog, label="prog", seed_mul=1000003, report=True, extra_c
         return prog_payload(ctx.seed, small, msg, extra, None if report else "search")
     if ctraces is not None:
         nacc = nfixed = 0
+        sup = {"IO": 0, "Im": 0, "Il": 0}
         bad = None
         for i, (m, c) in enumerate(ctraces):
             d = compile_differs(m, c)
@@ -1398,7 +1613,11 @@ def stream_prog(ctx, nprog, label="prog", seed_mul=1000003, report=True, extra_c
             for _, evs in (c or []):
                 nacc += sum(1 for e in evs if e[0] in "GSgs")
                 nfixed += sum(1 for e in evs if e[0] in "GS")
-        ctx.stream_stat("compile", programs=len(ctraces), property_accesses=nacc, fixed_index_accesses=nfixed)
+                for e in evs:
+                    if e in sup:
+                        sup[e] += 1
+        ctx.stream_stat("compile", programs=len(ctraces), property_accesses=nacc, fixed_index_accesses=nfixed,
+                        superclass_from_global_module=sup["IO"], superclass_from_module_symbol=sup["Im"], superclass_from_local=sup["Il"])
         if bad:
             i, d = bad
             ctx.cov["model_vs_impl_disagreements"] += 1
@@ -1416,6 +1635,52 @@ def stream_prog(ctx, nprog, label="prog", seed_mul=1000003, report=True, extra_c
                                           "what": compile_differs(compile_model([small])[0], ci) or d, "program": to_lay(small),
                                           "ast": to_jsonable(small), "model": compile_model([small])[0], "impl": ci}, no_input=True)
     return None
+
+
+# =============================================================================================
+# corpus programs with a recorded result (witnesses of repaired findings)
+# =============================================================================================
+
+
+def lay_entry_fails(path, r=None):
+    """None if the program next to the corpus entry `path` still gives the recorded result, else what differs"""
+    r = r or json.load(open(path))
+    prog = os.path.join(os.path.dirname(path), r["program"])
+    res = common.run_batch([prog])[0] or {}
+    last = [l for l in res.get("stderr", "").split("\n") if l.strip()]
+    last = last[-1] if last else ""
+    if res.get("status") != r["status"]:
+        return "status %s, recorded %s" % (res.get("status"), r["status"]), res
+    if res.get("stdout") != r["stdout"]:
+        return "stdout %r, recorded %r" % (res.get("stdout"), r["stdout"]), res
+    if r.get("stderr_last") is not None and last != r["stderr_last"]:
+        return "last stderr line %r, recorded %r" % (last, r["stderr_last"]), res
+    return None
+
+
+def stream_lay(ctx):
+    corpus = corpus_dir()
+    n = 0
+    for f in sorted(x for x in os.listdir(corpus) if x.endswith(".json")) if os.path.isdir(corpus) else []:
+        path = os.path.join(corpus, f)
+        r = json.load(open(path))
+        if r.get("engine") != "lay":
+            continue
+        n += 1
+        ctx.count_case("lay:" + f, True)
+        bad = lay_entry_fails(path, r)
+        if bad:
+            msg, res = bad
+            ctx.cov["impl_vs_spec_failures"] += 1
+            ctx.violation("lay_spec", {"engine": "lay", "kind": "implementation-vs-spec", "what": "%s: %s" % (r.get("note", f), msg),
+                                       "corpus_entry": path, "program_file": os.path.join(corpus, r["program"]),
+                                       "program": open(os.path.join(corpus, r["program"])).read(),
+                                       "recorded": {k: r.get(k) for k in ("status", "stdout", "stderr_last")},
+                                       "impl": {"status": res.get("status"), "stdout": res.get("stdout"), "stderr": res.get("stderr", "")[-600:]},
+                                       "replay": "./check C03 --replay <this file>"})
+            return False
+    ctx.stream_stat("lay", programs=n)
+    return True
 
 
 # =============================================================================================
@@ -1476,6 +1741,7 @@ def run(ctx):
             ctx.violation("proof", {"kind": "proof-obligation-failed", "broken": what, "detail": detail}, no_input=True)
         if not os.path.exists(DRV):
             return
+    stream_lay(ctx)
     ok_a = stream_api(ctx, napi)
     extra_cycle = ("",) if ctx.quick() else ("", "", "--gc coin:1/7:%d" % ctx.seed, "--caches-off")
     fail = stream_prog(ctx, nprog, extra_cycle=extra_cycle)
@@ -1493,9 +1759,11 @@ def run(ctx):
         "tied to the implementation by the classes stream, its call paths (§6) only through the theorems relating them to the Spec "
         "functions that the program stream checks against the implementation",
         "inline caches are modelled as off (cache transparency is C13); the program stream runs with caches on",
-        "the implicit superclass `Object` has no fields and is not shadowed (hypothesis of C03_fixed_index_valid; see known finding D26)",
-        "error classes at unfused property reads are not compared (known finding D20); messages are",
-        "generated programs keep `try` at module level (D1) and use no compound assignment on a non-self receiver (D25)",
+        "the built-in `Object` has no fields (hypothesis `hnof` of C03_fixed_index_valid / _any_scope; it is `Class::bare` plus native methods)",
+        "generated programs declare `Object` in every way but do not *assign* the undeclared name (`Object = X;` overwrites the "
+        "module's copy of the global symbol, which a class without parent reads where nothing shadows the name: known finding "
+        "D26b, hypothesis `hcopy` of C03_implicit_super_is_builtin)",
+        "error classes at unfused property reads are compared leniently (`~` lines: PropertyError or RuntimeError, D20 shape); messages are compared",
     ]
 
 
@@ -1525,6 +1793,14 @@ def replay(path):
         v, msg, _ = judge(s, i)
         print("verdict:", v, msg)
         return 1 if v == "fail" else 0
+    if r.get("engine") == "lay":
+        entry = r.get("corpus_entry", path)
+        bad = lay_entry_fails(entry)
+        print(open(os.path.join(os.path.dirname(entry), json.load(open(entry))["program"])).read())
+        print("differs:", bad[0] if bad else None)
+        if bad:
+            print("impl   :", bad[1].get("status"), repr(bad[1].get("stdout")), bad[1].get("stderr", "")[-300:])
+        return 1 if bad else 0
     if r.get("engine") == "compile":
         items = from_jsonable(r["ast"])
         print(to_lay(items))
